@@ -13,11 +13,11 @@ import (
 func init() {
 	register(&Prop{
 		ID:             "C22",
-		Pkgs:           []string{"service/transaction", "service/txresult"},
+		Pkgs:           []string{"service/transaction", "service/txresult", "common/codec"},
 		Run:            runC22,
 		MinObligations: 16,
 		Technique:      "static analysis: provenance of every trie key used by the list writers, lookups, proofs and the iterator's index decoder (one codec, one Go type, on every path), index agreement between key and stored item in the build loops, loop no-bypass",
-		LevelText:      "Decides on all paths: every key handed to the list tries of service/transaction and service/txresult (Set in the builders, Get, GetProof) is exactly codec.BC.MarshalToBytes(uint(index)) — no other codec, no other integer type, no shortcut path — and the iterator decodes its index with codec.BC into a uint and returns that value; the builders store item list[i] under the key of the same i for every i of the slice (no skipped iteration), and lookups return the object found under the key of the requested index.",
+		LevelText:      "Decides on all paths: every key handed to the list tries of service/transaction and service/txresult (Set in the builders, Get, GetProof) is exactly codec.BC.MarshalToBytes(uint(index)) — no other codec, no integer type narrower than int between index and encoder, no shortcut path — and the iterator decodes its index with codec.BC into a uint and returns that value; the builders store item list[i] under the key of the same i for every i of the slice (no skipped iteration), and lookups return the object found under the key of the requested index.",
 		LevelNote:      "Not decided: that byte-wise trie order of the RLP-encoded indices equals numeric order for every n (a value relation over all integers; it follows from the canonical big-endian integer form checked under C23 and the ordered iteration of C17/C18).",
 		Explanation:    "C22 rules: key-agreement (K5 provenance + K4), build-loop (K5 index agreement + K2 no-bypass), iterator-index (K5).",
 		Mutants: []Mutant{
@@ -60,15 +60,27 @@ func c22KeyOf(c *Ctx, v ssa.Value, depth int) (idx ssa.Value, why string) {
 			if mi, ok := arg.(*ssa.MakeInterface); ok {
 				arg = mi.X
 			}
-			bt, ok := arg.Type().Underlying().(*types.Basic)
-			if !ok || bt.Kind() != types.Uint {
-				return nil, "index encoded as " + arg.Type().String() + " instead of uint"
+			// int, uint, int64 and uint64 encode a non-negative index to the same bytes (minimal
+			// big-endian with a sign pad), and a negative int is no valid index under either; what
+			// matters is that no narrowing conversion lies between the index and the encoder
+			wide := func(t types.Type) bool {
+				bt, ok := t.Underlying().(*types.Basic)
+				return ok && (bt.Kind() == types.Uint || bt.Kind() == types.Int || bt.Kind() == types.Int64 || bt.Kind() == types.Uint64)
 			}
-			cv, ok := arg.(*ssa.Convert)
-			if !ok {
-				return nil, "index operand " + render(arg)
+			if !wide(arg.Type()) {
+				return nil, "index encoded as " + arg.Type().String() + " (narrower than int)"
 			}
-			one = cv.X
+			for {
+				cv, ok := arg.(*ssa.Convert)
+				if !ok {
+					break
+				}
+				if !wide(cv.X.Type()) {
+					return nil, "index passes through " + cv.X.Type().String() + " (narrower than int)"
+				}
+				arg = cv.X
+			}
+			one = arg
 		case *ssa.Call:
 			if !strings.HasSuffix(calleeName(x.Common()), "transaction.intToKey") {
 				return nil, "key produced by " + calleeName(x.Common())
@@ -247,5 +259,110 @@ func runC22(c *Ctx) {
 			}
 			c.check(n >= 1, "C22.iterator-index", "iterator has an item exit", it.Pos(), fmt.Sprint(n), "no exit returns an item")
 		}
+	}
+	runC22Extra(c)
+}
+
+// runC22Extra: the index is used as a key only — no lookup rejects an index
+// before the trie was asked (other than a negative one); iterators start at the
+// first entry; the empty-list shortcut applies to the empty slice only; a
+// list that flushes through a writer has its snapshot registered there; and
+// the integer byte form the index order rests on is the paired one (rules of
+// C23, re-run here as C22.key-encoding/…).
+func runC22Extra(c *Ctx) {
+	for _, s := range [][3]string{
+		{"service/transaction", "transactionList", "Get"},
+		{"service/txresult", "receiptList", "Get"},
+		{"service/txresult", "receiptList", "GetProof"},
+	} {
+		fn := c.mustFn(s[0], s[1], s[2])
+		if fn == nil {
+			continue
+		}
+		var trieCall ssa.Instruction
+		for _, cs := range c.calls(fn, byMethod("Get", "GetProof")) {
+			r, _ := callArgs(cs.Common())
+			if r != nil && strings.Contains(r.Type().String(), "trie.") {
+				trieCall = cs.Instr
+			}
+		}
+		if trieCall == nil {
+			continue
+		}
+		n := 0
+		for _, e := range exitAlts(fn) {
+			if dominatesInstr(trieCall, e.Ret) {
+				continue
+			}
+			n++
+			_, neg := holds(e.Guards, wGE("index < 0", -1, t(-1, `^\$0$`)))
+			_, encErr := holds(e.Guards, wDiffer("key encoding failed", `MarshalToBytes\(.*\)#1$`, `^nil$`))
+			c.check(neg || encErr, "C22.index-total", fnName(fn)+" gives up before asking the trie only for a negative index or an encoding error", e.pos(), "no index is refused", "an exit before the trie lookup is taken under "+guardsString(e.Guards)+": a valid index is reported as not found")
+		}
+		if n == 0 {
+			c.okTrivial("C22.index-total", fnName(fn)+": every exit follows the trie lookup", fn.Pos(), "no early exit")
+		}
+	}
+	for _, s := range [][2]string{{"service/transaction", "transactionList"}, {"service/txresult", "receiptList"}} {
+		fn := c.mustFn(s[0], s[1], "Iterator")
+		if fn == nil {
+			continue
+		}
+		var other []string
+		its := 0
+		for _, cs := range c.calls(fn, func(cc *ssa.CallCommon) bool { return true }) {
+			if methodName(cs.Common()) == "Iterator" {
+				its++
+				continue
+			}
+			other = append(other, methodName(cs.Common())+calleeName(cs.Common()))
+		}
+		c.check(its == 1 && len(other) == 0, "C22.iterator-start", fnName(fn)+" hands out the trie iterator untouched", fn.Pos(), "positioned at the first entry", fmt.Sprintf("%d Iterator() calls, other calls %v: the iterator is advanced (or replaced) before the caller sees entry 0", its, other))
+	}
+	if fn := c.mustFn("service/transaction", "", "NewTransactionListFromSlice"); fn != nil {
+		n := 0
+		for _, e := range exitAlts(fn) {
+			r := render(e.Results[0])
+			if strings.Contains(r, "NewTransactionListFromHash(") {
+				n++
+				c.requireGuard("C22.build-loop", "empty-list shortcut", e.pos(), e.Guards, wGE("len(list) ≤ 0", 0, t(-1, `^len\(\$1\)$`)))
+			}
+		}
+		// the writer that Flush goes through knows the snapshot
+		for _, st := range fieldStores([]*ssa.Function{fn}, "transactionList", "writer") {
+			if isNilConst(st.Store.Val) {
+				continue
+			}
+			n++
+			var trieVal ssa.Value
+			for _, t2 := range fieldStores([]*ssa.Function{fn}, "transactionList", "trie") {
+				if t2.Addr.X == st.Addr.X {
+					trieVal = t2.Store.Val
+				}
+			}
+			okAdd := false
+			for _, cs := range c.calls(fn, byMethod("Add")) {
+				r, a := callArgs(cs.Common())
+				if r == st.Store.Val && len(a) == 1 && trieVal != nil && unwrap(a[0]) == unwrap(trieVal) && dominatesInstr(cs.Instr, st.Store) {
+					okAdd = true
+				}
+			}
+			c.check(okAdd, "C22.build-loop", "the snapshot is registered with the writer the list flushes through", st.Store.Pos(), "writer.Add(snapshot)", "the list carries a writer that does not know its snapshot: Flush stores nothing and the list cannot be re-opened from its hash")
+		}
+		if n < 2 {
+			c.undecided("C22.build-loop", "NewTransactionListFromSlice shortcut/writer", fn.Pos(), fmt.Sprintf("found %d of 2 constructs", n))
+		}
+	}
+	{
+		sub := &Ctx{Prop: c.Prop, Tier: c.Tier, L: c.L}
+		runC23(sub)
+		for _, o := range sub.obs {
+			if strings.HasPrefix(o.Rule, "C23.int-converters") || strings.HasPrefix(o.Rule, "C23.narrowing") {
+				o2 := *o
+				o2.Rule = "C22.key-encoding/" + strings.TrimPrefix(o.Rule, "C23.")
+				c.obs = append(c.obs, &o2)
+			}
+		}
+		c.callSites += sub.callSites
 	}
 }
